@@ -43,7 +43,13 @@ def schemas(tier):
     names = ["h_refs", "h_counters_be"]
     if tier == "thorough":
         names += ["h_types8", "h_types64_be", "h_gaps", "h_extra_be"]
-    return catalogue.view_schemas() + [hs[n] for n in names]
+    pick = [hs[n] for n in names if n in hs]
+    for S in catalogue.header_schemas():      # the catalogue is shared: keep the count if a name disappears
+        if len(pick) >= len(names):
+            break
+        if S not in pick:
+            pick.append(S)
+    return catalogue.view_schemas() + pick
 
 
 def run_caps_tlc(wd):
@@ -201,7 +207,7 @@ def static_half(v, tier, seed, table, wd):
     for key in sorted(classes):
         lst = classes[key]
         if thorough:
-            chosen += lst if key[1] in (("g++", "c++11"), ("clang++", "c++17")) else rnd.sample(lst, min(len(lst), 2))
+            chosen += lst if key[1] in (("g++", "c++11"), ("clang++", "c++17")) else rnd.sample(lst, 1)
         else:
             chosen += rnd.sample(lst, 1)
 
@@ -347,9 +353,18 @@ def run(v, tier, seed):
     # the view pipeline (shared, cached) runs beside everything else
     box = {}
 
+    # thorough: the thorough pipeline result is folded in when some other check
+    # of this tree already produced it; computing it here alone costs more than
+    # the whole of C11, so otherwise the quick-tier replays are used
+    vtier = tier
+    if tier == "thorough":
+        ck = os.path.join(vlib.CACHE, "view", "view-%s.json" % viewpipe.pipeline_key(tier, seed, "view"))
+        if not os.path.exists(ck):
+            vtier = "quick"
+
     def bg():
         try:
-            box["view"] = viewpipe.view_results(tier, seed)
+            box["view"] = viewpipe.view_results(vtier, seed)
         except Exception as ex:   # noqa: BLE001
             box["err"] = ex
     th = threading.Thread(target=bg)
@@ -383,6 +398,7 @@ def run(v, tier, seed):
     if "err" in box:
         raise box["err"]
     ev_r = fold_view_replays(v, box["view"])
+    v.part("view_pipeline_replays", tier_of_results=vtier, getter_evaluations_on_readonly_mappings=ev_r)
 
     v.add(states=states, transitions=trans, evaluations=ev_s + ev_d + ev_r, distinct_nontrivial=distinct + images,
           rule="static: one probe per (schema, message, level, member or receiver, operation kind, access path, view byte, cursor byte) "
